@@ -11,9 +11,10 @@ from __future__ import annotations
 
 from array import array
 
-from bitarray import bitarray
+from bitarray import bitarray, frozenbitarray
 
 from vp.core import Ctx, Fail, HarnessError, SubCheck, Tally, call
+from vp.refs import trellis34_ref as tref
 
 LEVEL = "exploration"
 RULE = (
@@ -22,14 +23,24 @@ RULE = (
     "blocks (a,b,a,b,…) which put every (previous tribit, tribit) pair at every position 1..47, from which the 8x8 "
     "transition table is derived via the library's own inverse maps; all 8 state rows.  End to end: the 64 alternating, 8 "
     "all-equal and 48x7 single-tribit blocks plus Hypothesis-drawn blocks (uniform octets, sparse, few-symbol alphabets), "
-    "each as bitarray and as bytes.  Rejection: (block, position 0..48, each of the 8 points the state at that position "
+    "each as bitarray and as bytes, and again in other containers (encode: frozenbitarray; decode: little-endian bitarray, "
+    "frozenbitarray of either bit order).  Transformed codewords: 16 wrong-path images (interleave skipped / applied twice / "
+    "inverse applied, bits / dibits / points reversed, complemented, rotated by one bit / dibit / point either way, halves "
+    "swapped, dibits of a point or bits of a dibit swapped) of the alternating, constant and seeded random codewords, "
+    "judged by the independent trellis reference and by the library-derived structure; those both call invalid must be "
+    "rejected in every container.  Rejection: (block, position 0..48, each of the 8 points the state at that position "
     "cannot emit) patched into the encoded stream through the library's maps — complete over positions x points for the "
     "chosen blocks (all 64 alternating blocks plus 4 / 60 seeded random blocks).  Distinct by construction "
     "(enumerations) / by hash (Hypothesis).  Non-trivial: blocks with >= 3 distinct tribits; every patched stream; "
     "alternating blocks with a != b."
 )
 ASSUMPTIONS = [
-    "blocks are big-endian bitarrays of exactly 144 bits or bytes of exactly 18 octets (what Burst passes)",
+    "blocks are big-endian bitarrays of exactly 144 bits or bytes of exactly 18 octets (what Burst passes); containers are only "
+    "varied where the unchanged tree accepts them and is right (probed 2026-09: encode - big-endian bitarray, frozenbitarray, "
+    "bytes; NOT little-endian bitarrays (tribits are read with ba2int) and NOT bytearray / memoryview (rejected by the length "
+    "assertion); decode - bitarray of either bit order, frozen or not)",
+    "reject_transformed uses vp/refs/trellis34_ref.py (structure of ETSI tables B.7-B.9) only to build codewords and to judge "
+    "streams, and claims rejection only where the library-derived structure agrees that the stream is invalid",
     "'a constellation point that no encoder state can emit' is read as: a point that the encoder state at that position "
     "(= previous tribit, 0 at the start) cannot emit — every one of the 16 points is emitted by some state, so the literal "
     "reading would be empty",
@@ -38,6 +49,15 @@ ASSUMPTIONS = [
     "statement claims losslessness, inverse permutations and rejection, not conformance (the repository's captured "
     "vectors cover conformance)",
 ]
+
+
+ENCODE_REPS = ["frozen_big"]
+DECODE_REPS = ["little", "frozen_big", "frozen_little"]
+
+
+def make_bits(s, rep="big"):
+    b = bitarray(s, endian="little" if rep.endswith("little") else "big")
+    return frozenbitarray(b) if rep.startswith("frozen") else b
 
 
 def T():
@@ -234,6 +254,123 @@ def oracle_roundtrip(case):
     dec_kw = call(T().decode, enc.copy(), as_bytes=False)[1]
     if bitarray(dec_kw) != want_bits:
         raise Fail("decode_returns_block", bitarray(dec_kw).to01(), want_bits.to01(), "as_bytes_false")
+    # the same bit sequences in other containers (lesson A.1): encode takes big-endian bitarray / frozenbitarray / bytes,
+    # decode takes a bitarray of either bit order, frozen or not - where the unchanged tree is right (see ASSUMPTIONS)
+    s144, s196 = want_bits.to01(), enc.to01()
+    for rep in ENCODE_REPS:
+        arg = make_bits(s144, rep)
+        e2 = call(T().encode, arg)[1]
+        if arg.to01() != s144:
+            raise Fail("encode_does_not_mutate_input", arg.to01(), s144, rep)
+        if not isinstance(e2, bitarray) or e2.to01() != s196:
+            raise Fail("encode_independent_of_container", e2.to01() if isinstance(e2, bitarray) else repr(e2), s196, rep)
+    for rep in DECODE_REPS:
+        arg = make_bits(s196, rep)
+        d2 = call(T().decode, arg)[1]
+        if arg.to01() != s196:
+            raise Fail("decode_does_not_mutate_input", arg.to01(), s196, rep)
+        if not isinstance(d2, bitarray) or d2.to01() != s144:
+            raise Fail("decode_independent_of_container", d2.to01() if isinstance(d2, bitarray) else repr(d2), s144, rep)
+        d3 = call(T().decode, make_bits(s196, rep), True)[1]
+        if d3 != want_bytes:
+            raise Fail("decode_independent_of_container", repr(d3), blk, rep + ":as_bytes")
+
+
+# ---------------------------------------------------------------------------------------------- transformed codewords
+
+
+_REF_DIBIT = {bits: sym for sym, bits in tref._SYMBOL_BITS.items()}
+_REF_POINT = {(tref._POINT_I[p], tref._POINT_Q[p]): p for p in range(16)}
+
+
+def ref_walk(bits196: str):
+    """Normative receive path on the independent reference (vp/refs/trellis34_ref.py): bits -> dibits -> de-interleave ->
+    points -> state walk from state 0.  Returns the 49 tribits, or None when some point is not a successor of the state."""
+    rx = [_REF_DIBIT[(int(bits196[2 * i]), int(bits196[2 * i + 1]))] for i in range(98)]
+    de = [0] * 98
+    for i in range(98):
+        de[tref.INTERLEAVE[i]] = rx[i]
+    state, out = 0, []
+    for k in range(49):
+        p = _REF_POINT[(de[2 * k], de[2 * k + 1])]
+        nxt = [t for t in range(8) if tref.transition(state, t) == p]
+        if not nxt:
+            return None
+        out.append(nxt[0])
+        state = nxt[0]
+    return out
+
+
+def lib_walk(bits196: str):
+    """The same judgement with the structure derived from the library (its own maps + the table derived from its encoder)."""
+    pts = stream_to_points(bitarray(bits196))
+    tab = derived_table()
+    state, out = 0, []
+    for p in pts:
+        nxt = [t for t in range(8) if tab[(state, t)] == p]
+        if not nxt:
+            return None
+        out.append(nxt[0])
+        state = nxt[0]
+    return out
+
+
+def _perm_dibits(bits, perm):
+    """output dibit i = input dibit perm[i]"""
+    return "".join(bits[2 * perm[i] : 2 * perm[i] + 2] for i in range(98))
+
+
+_INV = [0] * 98
+for _i, _v in enumerate(tref.INTERLEAVE):
+    _INV[_v] = _i
+
+TRANSFORMS = {
+    # what a wrong transmit / receive path would do to a valid codeword (dibit permutations refer to the reference interleaver)
+    "interleave_skipped": lambda b: _perm_dibits(b, _INV),  # the de-interleaved (trellis order) dibits sent as they are
+    "interleave_applied_twice": lambda b: _perm_dibits(b, tref.INTERLEAVE),
+    "inverse_interleave_applied": lambda b: _perm_dibits(_perm_dibits(b, _INV), _INV),
+    "bits_reversed": lambda b: b[::-1],
+    "dibits_reversed": lambda b: _perm_dibits(b, list(range(97, -1, -1))),
+    "points_reversed": lambda b: "".join(b[4 * k : 4 * k + 4] for k in range(48, -1, -1)),
+    "complemented": lambda b: "".join("1" if c == "0" else "0" for c in b),
+    "rotated_left_1_bit": lambda b: b[1:] + b[:1],
+    "rotated_right_1_bit": lambda b: b[-1:] + b[:-1],
+    "rotated_left_1_dibit": lambda b: b[2:] + b[:2],
+    "rotated_right_1_dibit": lambda b: b[-2:] + b[:-2],
+    "rotated_left_1_point": lambda b: b[4:] + b[:4],
+    "rotated_right_1_point": lambda b: b[-4:] + b[:-4],
+    "halves_swapped": lambda b: b[98:] + b[:98],
+    "dibits_of_each_point_swapped": lambda b: "".join(b[4 * k + 2 : 4 * k + 4] + b[4 * k : 4 * k + 2] for k in range(49)),
+    "bits_of_each_dibit_swapped": lambda b: "".join(b[2 * k + 1] + b[2 * k] for k in range(98)),
+}
+
+
+def transformed_verdict(block, transform):
+    """(stream, 'invalid' | 'valid' | 'judges_disagree') for the codeword of ``block`` under ``transform``; the codeword is the
+    reference's, so the case does not depend on the library's encoder."""
+    v = int(block, 16)
+    cw = "".join(map(str, tref.encode([(v >> (143 - i)) & 1 for i in range(144)])))
+    bad = TRANSFORMS[transform](cw)
+    if len(bad) != 196:
+        raise HarnessError("transform changed the length")
+    r, l = ref_walk(bad), lib_walk(bad)
+    if (r is None) != (l is None):
+        return bad, "judges_disagree"
+    return bad, "invalid" if r is None else "valid"
+
+
+def oracle_reject_transformed(case):
+    """case = {block: hex36, transform}: the image of a valid codeword under a wrong-path transformation; when the normative
+    receive path (reference AND library-derived structure) meets a point the tracked state cannot emit, decode must raise -
+    for every container of the stream and for both return types."""
+    bad, verdict = transformed_verdict(case["block"], case["transform"])
+    if verdict != "invalid":
+        return  # happens to be a valid path (e.g. constant blocks under a rotation) or the judges disagree: nothing claimed
+    for rep in ["big"] + DECODE_REPS:
+        for as_bytes in (False, True):
+            st, res = call(T().decode, make_bits(bad, rep), as_bytes, allowed=(Exception,))
+            if st == "ok":
+                raise Fail("stream_with_unemittable_point_rejected", {"returned": res.to01() if isinstance(res, bitarray) else repr(res)}, "an exception", case["transform"])
 
 
 # ---------------------------------------------------------------------------------------------- rejection
@@ -501,6 +638,32 @@ def drv_reuse(ctx: Ctx, sub: SubCheck):
     ctx.shards(work, list(range(16)))
 
 
+def drv_reject_transformed(ctx: Ctx, sub: SubCheck):
+    if not tref.selfcheck():
+        raise HarnessError("trellis reference self-check failed")
+    rng = ctx.rng("transformed")
+    blocks = [alternating(a, b) for a in range(8) for b in range(8)] + ["00" * 18, "ff" * 18, "aa" * 18]
+    blocks += ["%036x" % rng.getrandbits(144) for _ in range(ctx.pick(60, 1500))]
+    names = sorted(TRANSFORMS)
+    chunks = [blocks[i::16] for i in range(16)]
+
+    def work(chunk, t: Tally):
+        for blk in chunk:
+            for name in names:
+                case = {"block": blk, "transform": name}
+                verdict = transformed_verdict(blk, name)[1]
+                if verdict == "invalid":
+                    ctx.run_case(sub.name, oracle_reject_transformed, case, t)
+                    t.case(sub.name, nontrivial=True, cls=name)
+                else:
+                    t.excluded[f"transformed stream {verdict}"] += 1
+        if chunk:
+            t.sample(sub.name, {"block": chunk[-1], "transform": "interleave_skipped"})
+
+    ctx.shards(work, chunks)
+    ctx.tally.notes.append(f"reject_transformed: {len(names)} wrong-path images of {len(blocks)} codewords (64 alternating, 3 constant, seeded random), judged by the independent trellis reference and by the library-derived structure; only streams both call invalid are claimed")
+
+
 SUBCHECKS = [
     SubCheck("dibit_map", oracle_dibit_map, drv_maps, "bit pair <-> dibit value is a bijection on 4 values"),
     SubCheck("point_map", oracle_point_map, lambda ctx, sub: None, "constellation point <-> dibit pair is a bijection on 16 values (driven by dibit_map)"),
@@ -510,6 +673,7 @@ SUBCHECKS = [
     SubCheck("roundtrip_structured", oracle_roundtrip, drv_roundtrip_structured, "alternating, single-tribit, constant and de-Bruijn blocks: 196 bits, decode == block, bits == bytes"),
     SubCheck("roundtrip_random", oracle_roundtrip, drv_roundtrip_random, "Hypothesis blocks: 196 bits, decode == block, bits == bytes"),
     SubCheck("reject", oracle_reject, drv_reject, "every unemittable point at every position of the chosen blocks makes decode raise"),
+    SubCheck("reject_transformed", oracle_reject_transformed, drv_reject_transformed, "codewords with the interleave skipped / doubled / inverted, reversed, rotated, complemented, halves swapped: decode raises whenever the normative path meets an unemittable point"),
     SubCheck("reuse", oracle_reuse, drv_reuse, "histories: encode, caller damages the returned stream in place, encode/decode again (same or other block) - results independent of that"),
 ]
 PREDICATES = {}
